@@ -170,3 +170,53 @@ def cached_arrays_not_updated_in_place(ctx, rule, qualnames):
                        'solute with the same denominator unit) starts from the modified row',
                    key=f"in-place update of a cached array: {nm}")
     ctx.count('augmented_array_updates', n)
+
+
+def no_shared_mutable_defaults(ctx, rule, classes=None):
+    """A default argument is evaluated once.  A list / dict / set default that the function stores in an object or
+    changes in place is one object shared by every call that omits the argument: what one call records shows up in the
+    next (every step sharing one `trash`, every container one `contents`)."""
+    model = ctx.model
+    MUT = {'append', 'add', 'update', 'pop', 'remove', 'clear', 'extend', 'insert', 'setdefault', 'discard', 'popitem', 'sort', 'reverse'}
+    n = 0
+    bad = []
+    for fi in model.funcs.values():
+        if fi.mod.rel not in ('pyplate/pyplate.py', 'pyplate/slicer.py') or fi.parent is not None:
+            continue
+        if classes is not None and (fi.cls is None or fi.cls.name not in classes):
+            continue
+        a = fi.node.args
+        pos = a.posonlyargs + a.args
+        pairs = list(zip(pos[len(pos) - len(a.defaults):], a.defaults)) + \
+            [(p, d) for p, d in zip(a.kwonlyargs, a.kw_defaults) if d is not None]
+        for p, d in pairs:
+            mutable = isinstance(d, (ast.List, ast.Dict, ast.Set, ast.ListComp, ast.DictComp, ast.SetComp)) or \
+                (isinstance(d, ast.Call) and isinstance(d.func, ast.Name) and d.func.id in ('list', 'dict', 'set', 'defaultdict', 'OrderedDict', 'deque'))
+            if not mutable:
+                continue
+            n += 1
+            uses = []
+            for st in ast.walk(fi.node):
+                if isinstance(st, (ast.Assign, ast.AnnAssign)) and isinstance(getattr(st, 'value', None), ast.Name) and st.value.id == p.arg:
+                    tg = st.targets if isinstance(st, ast.Assign) else [st.target]
+                    if any(isinstance(t, (ast.Attribute, ast.Subscript)) for t in tg):
+                        uses.append(f"stored at line {st.lineno}")
+                if isinstance(st, ast.Call) and isinstance(st.func, ast.Attribute) and st.func.attr in MUT and \
+                        isinstance(st.func.value, ast.Name) and st.func.value.id == p.arg:
+                    uses.append(f"changed by .{st.func.attr}() at line {st.lineno}")
+                if isinstance(st, (ast.Assign, ast.AugAssign)):
+                    tg = st.targets if isinstance(st, ast.Assign) else [st.target]
+                    for t in tg:
+                        if isinstance(t, ast.Subscript) and isinstance(t.value, ast.Name) and t.value.id == p.arg:
+                            uses.append(f"item stored at line {st.lineno}")
+                        if isinstance(st, ast.AugAssign) and isinstance(t, ast.Name) and t.id == p.arg:
+                            uses.append(f"augmented at line {st.lineno}")
+            if uses:
+                bad.append((fi, d.lineno, p.arg, uses))
+    anchor = model.func('Container.__init__')
+    for fi, line, pname, uses in bad:
+        ctx.ob(rule, fi, line, f"{fi.qualname}: the mutable default of `{pname}` is not kept or changed", False,
+               fact='; '.join(uses[:3]), why='the default object is created once: every call that omits the argument shares it, '
+               'and what one call stores is seen by all others', key=f"shared mutable default {fi.qualname}.{pname}")
+    ctx.ob(rule, anchor, anchor.node.lineno, 'no mutable default argument is stored or changed', not bad,
+           fact=f"{n} mutable default(s) examined", why='see the reports', key='mutable defaults', nontrivial=False)
